@@ -374,6 +374,7 @@ def Expr.ok : Expr → Prop
     e.ok ∧ attrs ≠ [] ∧ (∀ x ∈ attrs, solidT x) ∧ cm ab = [] ∧ d.ok ∧ cm db = [] ∧ TrivOk b ∧ TrivOk a
   | .lam n bcc _ _ body b a => solidT n ∧ cm bcc = [] ∧ body.ok ∧ TrivOk b ∧ TrivOk a
   | .un op e _ bt b a => (solidT op ∧ op ≠ ['+', '+']) ∧ e.ok ∧ cm bt = [] ∧ TrivOk b ∧ TrivOk a
+  | .bin op l r _ _ b a => solidT op ∧ l.ok ∧ r.ok ∧ TrivOk b ∧ TrivOk a
 def allOk : List Expr → Prop
   | [] => True
   | e :: rest => e.ok ∧ allOk rest
@@ -410,6 +411,7 @@ def Expr.lexOut : Expr → Bool → List Lex
     cm b ++ e.lexOut false ++ attrLex attrs ++ [.tok ['o', 'r']] ++ d.lexOut false ++ (if na then [] else cm a)
   | .lam n _ _ _ body b a, na => cm b ++ [.tok n, .tok [':']] ++ body.lexOut false ++ (if na then [] else cm a)
   | .un op e _ _ b a, na => cm b ++ [.tok op] ++ e.lexOut false ++ (if na then [] else cm a)
+  | .bin op l r _ _ b a, na => cm b ++ l.lexOut false ++ [.tok op] ++ r.lexOut false ++ (if na then [] else cm a)
 def lexOutAll : List Expr → List Lex
   | [] => []
   | e :: rest => e.lexOut false ++ lexOutAll rest
@@ -536,6 +538,7 @@ theorem ok_after {e : Expr} (h : e.ok) : TrivOk e.after := by
   | selOr e ats g ab d dg db b a => exact h.2.2.2.2.2.2.2
   | lam n c g k bd b a => exact h.2.2.2.2
   | un o e g bt b a => exact h.2.2.2.2
+  | bin o l r x y b a => exact h.2.2.2.2
 
 theorem ok_before {e : Expr} (h : e.ok) : TrivOk e.before := by
   cases e with
@@ -551,6 +554,7 @@ theorem ok_before {e : Expr} (h : e.ok) : TrivOk e.before := by
   | selOr e ats g ab d dg db b a => exact h.2.2.2.2.2.2.1
   | lam n c g k bd b a => exact h.2.2.2.1
   | un o e g bt b a => exact h.2.2.2.1
+  | bin o l r x y b a => exact h.2.2.2.1
 
 theorem leafBefore_nil' (k : LeafKind) (t : Text) (i : Nat) (inl : Bool) : leafBefore k t [] i inl = [] := by
   unfold leafBefore; split
@@ -602,6 +606,9 @@ theorem rebuildAP_indent_split {e : Expr} (hok : e.ok) (h : e.before = []) (na :
   | lam n c g k bd b a =>
     simp only [Expr.before] at h; subst h
     simp [Expr.rebuildAP, addTriviaP, fmtP, fmtGoP, indentP]
+  | bin o l r x y b a =>
+    simp only [Expr.before] at h; subst h
+    simp [Expr.rebuildAP, addTriviaP, fmtP, fmtGoP, indentP]
   | un o e g bt b a =>
     simp only [Expr.before] at h; subst h
     have hne : (o == ['+', '+']) = false := by
@@ -625,6 +632,18 @@ theorem attrP_lex : ∀ (attrs : List Text), attrs ≠ [] → (∀ x ∈ attrs, 
     · simp only [attrP, attrLex, lexOf_tok] at ih ⊢
       rw [ih.1]
     · exact solid_tokc '.' (by decide) (solid_cons (p := FP.tok a) (hs a (List.mem_cons_self ..)) ih.2)
+
+/-- the four layouts of a binary expression: left, separator, operator, separator, right -/
+theorem binCoreP_shape (l ro ri : List FP) (op : Text) (ogl rgl i : Nat) :
+    ∃ w1 w2 R, binCoreP l ro ri op ogl rgl i = l ++ (FP.ws w1 :: FP.tok op :: FP.ws w2 :: R) ∧ (R = ro ∨ R = ri) := by
+  unfold binCoreP
+  split
+  · split
+    · exact ⟨List.replicate ogl '\n' ++ spaces i, List.replicate rgl '\n', ro, by simp, Or.inl rfl⟩
+    · exact ⟨List.replicate ogl '\n' ++ spaces i, [' '], ri, by simp, Or.inr rfl⟩
+  · split
+    · exact ⟨[' '], List.replicate rgl '\n', ro, by simp, Or.inl rfl⟩
+    · exact ⟨[' '], [' '], ri, by simp, Or.inr rfl⟩
 
 theorem dropCharsP_ws_spaces (i : Nat) (rest : List FP) (hi : i ≠ 0) :
     dropCharsP (.ws (spaces i) :: rest) i = rest := by
@@ -778,6 +797,7 @@ theorem rebuildAP_lex : (e : Expr) → e.ok → ∀ (na : Bool) (i : Nat) (b : B
       | selOr e ats g ab d dg db b a => exact hv.2.2.2.2.2.2.2
       | lam n c g k bd b a => exact hv.2.2.2.2
       | un o e g bt b a => exact hv.2.2.2.2
+      | bin o l r x y b a => exact hv.2.2.2.2
     have hbt := bindingTailP_lex (trivOk_append hva (ite_nil_ok na ha)) i
     have hi := indentP_lex i b
     simp only [Expr.rebuildAP, Expr.lexOut]
@@ -1002,6 +1022,24 @@ theorem rebuildAP_lex : (e : Expr) → e.ok → ∀ (na : Bool) (i : Nat) (b : B
       (solid_append (solid_append hbase.2 (solid_wsc _ solid_nil)) hexpr.2) i b
     refine ⟨?_, hatp.2⟩
     rw [hatp.1]; simp [hbase.1, hexpr.1, cm_ite_nil]
+  | .bin op left right ogl rgl before after, hok, na, i, b => by
+    obtain ⟨hop, hl, hr, hb, ha⟩ := hok
+    have ihl := rebuildAP_lex left hl false i true
+    have ihr := rebuildAP_lex right hr false
+    simp only [Expr.rebuildAP, Expr.lexOut]
+    obtain ⟨w1, w2, R, hsh, hR⟩ := binCoreP_shape (left.rebuildAP false i true)
+      (FP.ws (spaces (ensureIndentPad (concat (right.rebuildAP false (binRightIndent op right i) right.before.isEmpty))
+        (binRightIndent op right i))) :: right.rebuildAP false (binRightIndent op right i) right.before.isEmpty)
+      (right.rebuildAP false i true) op ogl rgl i
+    rw [hsh]
+    have hRl : lexOf R = right.lexOut false ∧ Solid R := by
+      rcases hR with h | h <;> subst h
+      · exact ⟨by simp [(ihr _ _).1], solid_wsc _ (ihr _ _).2⟩
+      · exact ihr _ _
+    have hatp := addTriviaP_lex (core := left.rebuildAP false i true ++ (FP.ws w1 :: FP.tok op :: FP.ws w2 :: R))
+      hb (ite_nil_ok na ha) (solid_append ihl.2 (solid_wsc _ (solid_cons (p := FP.tok op) hop (solid_wsc _ hRl.2)))) i b
+    refine ⟨?_, hatp.2⟩
+    rw [hatp.1]; simp [ihl.1, hRl.1, cm_ite_nil]
 theorem rebuildAllP_lex : (es : List Expr) → allOk es → ∀ (i : Nat) (b : Bool),
     ((rebuildAllP es i b).map lexOf).flatten = lexOutAll es ∧ ∀ x ∈ rebuildAllP es i b, Solid x
   | [], _, i, b => ⟨rfl, by intro x hx; cases hx⟩
@@ -1028,6 +1066,7 @@ theorem previewP_lex : (e : Expr) → e.ok → ∀ (i : Nat) (p : List FP), e.pr
   | .selOr .., _, i, p, h => by simp [Expr.previewP] at h
   | .lam .., _, i, p, h => by simp [Expr.previewP] at h
   | .un .., _, i, p, h => by simp [Expr.previewP] at h
+  | .bin .., _, i, p, h => by simp [Expr.previewP] at h
   | .list value ml inner before after, hok, i, p, h => by
     obtain ⟨hv, hin, hb, ha⟩ := hok
     have ih := fun i b => rebuildAllP_lex value hv i b
